@@ -12,7 +12,7 @@ static __thread uint8_t *tape = NULL;
 static __thread size_t tape_len = 0, tape_pos = 0;
 static __thread size_t hx_rand_calls = 0;
 static __thread long hx_rand_fail = -1;
-size_t hx_rand_last_calls = 0;               /* requests made during the last taped operation */      /* "rand_fail": k — the k-th call (from 0) reports failure (returns 0, writes nothing) */
+__thread size_t hx_rand_last_calls = 0;               /* requests made during the last taped operation */      /* "rand_fail": k — the k-th call (from 0) reports failure (returns 0, writes nothing) */
 
 int
 RAND_bytes(unsigned char *buf, int num)
